@@ -124,6 +124,8 @@ def diff_coverage(repo: Repo, rep, rule: str, gen: Function, diff_body: List[ast
             elif isinstance(p, (ast.For, ast.While, ast.Try)) and not isinstance(n, ast.expr):
                 if isinstance(p, ast.Try) and n in p.body + p.finalbody:
                     pass
+                elif isinstance(p, ast.While) and isinstance(p.test, ast.Constant) and p.test.value is True and p.body and isinstance(p.body[-1], ast.Break):
+                    pass  # the one-shot block sa/flatten.py writes for an inlined helper: executed exactly once
                 else:
                     raise AnalysisError(f"{rule}: `{norm(call)[:60]}` sits in a {type(p).__name__} - not modelled")
             n = p
@@ -217,6 +219,10 @@ def _escapes_upward(fn: Function, path_expr: ast.AST) -> Optional[str]:
 
 def run(repo: Repo, rep: Report, tier: str) -> None:
     gen = repo.func(GEN)
+    from sa.flatten import flatten as _flgen
+
+    # the comparison step may have been extracted into a helper of the class (`if self._differs_from_existing(...)`): write it out
+    gen = _flgen(gen, select=lambda h: any(isinstance(c.func, ast.Attribute) and c.func.attr == "_show_diffs" for c in calls_in(h.node)))
     sw, atoms, ex_atoms = find_mode_switch(gen)  # type: ignore[misc]
     # the output-package variable: the one whose existence the mode switch tests (when several: the one that is later removed)
     rm_targets = {_root_name(c.args[0]) for c in calls_in(gen.node) if dotted(c.func) == "shutil.rmtree" and c.args}
@@ -353,6 +359,8 @@ def run(repo: Repo, rep: Report, tier: str) -> None:
     for mn in gen_mods:
         mod = repo.modules[mn]
         for fn in mod.functions.values():
+            if fn.fq == gen.fq:
+                fn = gen  # the same function object the branch analysis above works on (possibly with the diff helper written out)
             if "<locals>" in fn.qualname:
                 continue
             p = None
